@@ -1,6 +1,8 @@
 package main
 
 import (
+	"reflect"
+	"github.com/cosmos/cosmos-sdk/store/prefix"
 	"fmt"
 	"sort"
 	"strings"
@@ -343,5 +345,70 @@ func runC19(r *Rec) {
 		}
 	}
 	// the model is reloaded from the implementation and must still agree on validity
+	loadModel()
+
+	// 4. field sweep on the message path: the stored record with ONE numeric field replaced by 0, 1, its value + 1 or a
+	// random value, sent as MsgSetNetworkProperties by the holder of the change permission. Accepted iff the whole record
+	// is valid; accepted values read back; rejected updates change nothing.
+	r.Mark("message path field sweep")
+	gkey := w.app.GetKey(govtypes.ModuleName)
+	fieldID := map[string]int{}
+	{
+		base := *k.GetNetworkProperties(ctx)
+		rv := reflect.ValueOf(&base).Elem()
+		for fi := 0; fi < rv.NumField(); fi++ {
+			if rv.Field(fi).Kind() != reflect.Uint64 {
+				continue
+			}
+			p := base
+			reflect.ValueOf(&p).Elem().Field(fi).SetUint(987654321987)
+			cc, _ := ctx.CacheContext()
+			prefix.NewStore(cc.KVStore(gkey), govtypes.KeyPrefixNetworkProperties).Set([]byte("property"), w.app.AppCodec().MustMarshal(&p))
+			for _, id := range ids {
+				if v, err := k.GetNetworkProperty(cc, govtypes.NetworkProperty(id)); err == nil && v.Value == 987654321987 {
+					fieldID[rv.Type().Field(fi).Name] = id
+				}
+			}
+		}
+	}
+	var fnames []string
+	for n := range fieldID {
+		fnames = append(fnames, n)
+	}
+	sort.Strings(fnames)
+	for _, fn := range fnames {
+		id := fieldID[fn]
+		for vi := 0; vi < 4; vi++ {
+			cur := *k.GetNetworkProperties(ctx)
+			f := reflect.ValueOf(&cur).Elem().FieldByName(fn)
+			old := f.Uint()
+			val := []uint64{0, 1, old + 1, uint64(r.Rng.Int63n(5000000))}[vi]
+			f.SetUint(val)
+			before := npDump(ctx, k)
+			err := withCache(ctx, func(cc sdk.Context) error {
+				_, e := ms.SetNetworkProperties(sdk.WrapSDKContext(cc), govtypes.NewMsgSetNetworkProperties(w.addrs[0], &cur))
+				return e
+			})
+			out := "ok"
+			if err != nil {
+				out = "err"
+			}
+			r.Op(fmt.Sprintf("props msgset %d %d ~", id, val), out)
+			r.Op("props dump", npDump(ctx, k))
+			r.Count("msg-field:" + out)
+			r.Case(fmt.Sprintf("msgfield/%s/%d/%s", fn, val, out), true)
+			if err != nil && npDump(ctx, k) != before {
+				r.Fail("C19/msg/rejected-but-changed", fmt.Sprintf("field %s := %d", fn, val), nil)
+			}
+			if err == nil {
+				if got, e2 := k.GetNetworkProperty(ctx, govtypes.NetworkProperty(id)); e2 != nil || got.Value != val {
+					r.Fail("C19/msg/accepted-value-does-not-read-back", fmt.Sprintf("MsgSetNetworkProperties with %s = %d accepted, the property reads back %d", fn, val, got.Value), nil)
+				}
+				if verr := k.ValidateNetworkProperties(ctx, k.GetNetworkProperties(ctx)); verr != nil {
+					r.Fail("C19/msg/stored-invalid", fn+": "+verr.Error(), nil)
+				}
+			}
+		}
+	}
 	loadModel()
 }
